@@ -130,7 +130,7 @@ def _vtime_module(world):
             setattr(m, k, getattr(_real_time, k))
     m.time = world.time
     m.time_ns = world.time_ns
-    m.monotonic = world.time
+    m.monotonic = lambda: world.time() - 1_699_999_000.0      # a monotonic clock has an arbitrary epoch: never comparable with time()
     m.sleep = world.sleep
     return m
 
